@@ -127,4 +127,75 @@ theorem step_outlier (s : St) (a : Addr) (on : Bool) :
     (step s (.outlier a on)).1.w = (HealthLifecycle.step s.w (.outlier a on)).1 := by
   rw [step_eq]; rfl
 
+/-! ### the model's observations satisfy the property predicate -/
+open MosnVerif.Model.HealthLifecycle (Sim) in
+theorem holdsStep_lifecycle_id (n : Nat) (all : List HealthLifecycle.Op) (r : HealthLifecycle.Ref) (wds : Addr → Word)
+    (o : HealthLifecycle.Op) (h : o.isLifecycle = true) : HealthLifecycle.holdsStep n all r wds wds none o = true := by
+  have t : (Option.isNone (none : Option Out) && (List.range n).all (fun x => wds x == wds x)) = true := by
+    simp only [Option.isNone_none, Bool.true_and]
+    exact HealthLifecycle.all_range _ _ (fun x => by simp)
+  cases o with
+  | setHosts k hs => exact t
+  | stopAll k => exact t
+  | recreate k u h' => exact t
+  | result k a r' => simp [HealthLifecycle.Op.isLifecycle] at h
+  | outlier a on => simp [HealthLifecycle.Op.isLifecycle] at h
+
+theorem holdsSeq_lifecycle (n : Nat) (all : List HealthLifecycle.Op) (l : List HealthLifecycle.Op)
+    (hl : ∀ o ∈ l, o.isLifecycle = true) (r : HealthLifecycle.Ref) (wds : Addr → Word) :
+    holdsSeq n all r wds wds none l = true := by
+  induction l generalizing r with
+  | nil => rfl
+  | cons x l ih =>
+    simp only [holdsSeq, Bool.and_eq_true]
+    exact ⟨holdsStep_lifecycle_id n all r wds x (hl x (List.mem_cons_self ..)),
+      ih (fun o ho => hl o (List.mem_cons_of_mem _ ho)) _⟩
+
+theorem unchanged_refl (n : Nat) (w : Addr → Word) : unchanged n w w = true :=
+  HealthLifecycle.all_range _ _ (fun x => by simp)
+
+theorem holdsStep_model (m n : Nat) (all : List HealthLifecycle.Op) (s : St) (r : HealthLifecycle.Ref)
+    (hs : HealthLifecycle.Sim all s.w r) (op : SOp) :
+    holdsStep m n all s.c r s.w.words
+      ⟨(step s op).1.w.words, (step s op).2, viewsOf m (step s op).1.w.words (step s op).1.c⟩ op = true := by
+  have hc : (step s op).1.c = s.c.step op := by rw [step_eq]
+  simp only [holdsStep, hc, beq_self_eq_true, Bool.and_true]
+  by_cases hh : isHostOp op = true
+  · have hp := hostOp_preserves s op hh
+    rw [hp.1, hp.2]
+    cases hcm : compile s.c op with
+    | nil => simp [unchanged_refl]
+    | cons x l =>
+      simp only []
+      exact holdsSeq_lifecycle n all _ (by rw [← hcm]; exact compile_lifecycle s.c op hh) r _
+  · cases op with
+    | result k a rr =>
+      rw [(step_result s k a rr).1, (step_result s k a rr).2]
+      simp only [compile, holdsSeq, Bool.and_true]
+      exact HealthLifecycle.holds_step n all s.w r hs _
+    | outlier a on =>
+      rw [step_eq]
+      simp only [compile, holdsSeq, Bool.and_true, runLc, List.foldl_cons, List.foldl_nil]
+      exact HealthLifecycle.holds_step n all s.w r hs _
+    | update k hs => simp [isHostOp] at hh
+    | append k x => simp [isHostOp] at hh
+    | remove k x => simp [isHostOp] at hh
+    | reconf k cf => simp [isHostOp] at hh
+
+theorem holdsFrom_trace (m n : Nat) (all : List HealthLifecycle.Op) (ops : List SOp) (s : St) (r : HealthLifecycle.Ref)
+    (hs : HealthLifecycle.Sim all s.w r) (hsub : ∀ o ∈ compileAll s.c ops, o ∈ all) :
+    holdsFrom m n all s.c r s.w.words ops (trace m s ops) = true := by
+  induction ops generalizing s r with
+  | nil => rfl
+  | cons op ops ih =>
+    simp only [trace, holdsFrom, Bool.and_eq_true]
+    refine ⟨holdsStep_model m n all s r hs op, ?_⟩
+    have e : (step s op).1 = ⟨runOps s.w (compile s.c op), s.c.step op⟩ := by rw [step_eq, runLc_fst]
+    have h1 : ∀ o ∈ compile s.c op, o ∈ all := fun o ho => hsub o (by simp only [compileAll]; exact List.mem_append_left _ ho)
+    have h2 : ∀ o ∈ compileAll (s.c.step op) ops, o ∈ all := fun o ho => hsub o (by simp only [compileAll]; exact List.mem_append_right _ ho)
+    have hsim := HealthLifecycle.sim_runOps all (compile s.c op) s.w r hs h1
+    have := ih (step s op).1 (refRun r (compile s.c op)) (by rw [e]; exact hsim) (by rw [e]; exact h2)
+    rw [e] at this ⊢
+    exact this
+
 end MosnVerif.Model.HealthShare
